@@ -115,6 +115,7 @@ def gen_base(rnd, small: bool = False) -> Dict[str, Any]:
     replicate_root = None
     meta_edges: List[Tuple[int, int]] = []
     data_files: Dict[str, str] = {}
+    arrays: List[Dict[str, Any]] = []
     for i in range(n):
         st = stages[i]
         while True:
@@ -210,6 +211,53 @@ def gen_base(rnd, small: bool = False) -> Dict[str, Any]:
             var_layer[v] = [("global",)]
             c.setdefault("resourceRequest", {})["numberThreads"] = "%(" + v + ")s"
             uses.setdefault(v, []).append(i)
+        # array variables: "%(arr)s[<literal>]" and "%(arr)s[%(idx)s]" (the value is a space separated list)
+        if r.random() < 0.45:
+            arr, idx = "arr_%d" % i, "idx_%d" % i
+            site = r.choice(["arguments", "arguments", "executable", "queue", "threads"])
+            if site == "threads" and isinstance(c.get("resourceRequest", {}).get("numberThreads"), str):
+                site = "arguments"
+            values = {"arguments": ["water", "ethanol", "benzene", "x_y"], "executable": ["echo", "cat", "ls"],
+                      "queue": ["normal", "big", "q-c"], "threads": ["1", "2", "4"]}[site]
+
+            def define(name, val):
+                layer = r.choice(["global", "stage", "component"])
+                if layer == "global":
+                    glob[name] = val
+                    var_layer[name] = [("global",)]
+                elif layer == "stage":
+                    stagev.setdefault(st, {})[name] = val
+                    var_layer[name] = [("stage", st)]
+                else:
+                    c.setdefault("variables", {})[name] = val
+                    var_layer[name] = [("component", i)]
+                uses.setdefault(name, []).append(i)
+
+            define(arr, " ".join(values))
+            use_idx = r.random() < 0.75
+            if use_idx:
+                k = r.randrange(len(values))
+                define(idx, k if r.random() < 0.7 else str(k))
+                access = "%(" + arr + ")s[%(" + idx + ")s]"
+            else:
+                access = "%(" + arr + ")s[" + str(r.randrange(len(values))) + "]"
+            if site == "arguments":
+                extra = " -m " + access
+                if use_idx and r.random() < 0.5:
+                    extra += " %(" + arr + ")s[" + str(r.randrange(len(values))) + "]"
+                c["command"]["arguments"] = (c["command"].get("arguments", "") + extra).strip()
+                path = ["command", "arguments"]
+            elif site == "executable":
+                c["command"]["executable"] = access
+                path = ["command", "executable"]
+            elif site == "queue":
+                c.setdefault("resourceManager", {}).setdefault("lsf", {})["queue"] = access
+                path = ["resourceManager", "lsf", "queue"]
+            else:
+                c.setdefault("resourceRequest", {})["numberThreads"] = access
+                path = ["resourceRequest", "numberThreads"]
+            arrays.append({"comp": "stage%d.%s" % (st, nm), "arr": arr, "idx": idx if use_idx else None,
+                           "path": path, "n": len(values)})
         comps.append(c)
     # replication: a source component replicates; a sink (no consumers) may aggregate
     replicated = False
@@ -218,6 +266,15 @@ def gen_base(rnd, small: bool = False) -> Dict[str, Any]:
         i = r.choice(roots)
         if r.random() < 0.5:
             comps[i].setdefault("workflowAttributes", {})["replicate"] = r.choice([2, 3])
+            if r.random() < 0.5:
+                # the documented use of array variables: one item per replica
+                glob["per_replica"] = "r-a r-b r-c r-d"
+                var_layer["per_replica"] = [("global",)]
+                uses.setdefault("per_replica", []).append(i)
+                comps[i]["command"]["arguments"] = (comps[i]["command"].get("arguments", "")
+                                                    + " %(per_replica)s[%(replica)s]").strip()
+                arrays.append({"comp": cid(comps[i]), "arr": "per_replica", "idx": None,
+                               "path": ["command", "arguments"], "n": 4, "replica": True})
         else:
             glob["replicas"] = r.choice([2, 3])
             var_layer["replicas"] = [("global",)]
@@ -246,7 +303,7 @@ def gen_base(rnd, small: bool = False) -> Dict[str, Any]:
         r.shuffle(doc["components"])           # declaration order is not dependency order
     return {"doc": doc, "files": data_files, "replicated": replicated,
             "ids": sorted(cid(c) for c in comps), "var_layers": {k: v for k, v in var_layer.items()},
-            "var_uses": {k: sorted(set(v)) for k, v in uses.items()}}
+            "var_uses": {k: sorted(set(v)) for k, v in uses.items()}, "arrays": arrays}
 
 
 # --------------------------------------------------------------------------- helpers over documents
@@ -445,5 +502,45 @@ def mutants(rnd, base: Dict[str, Any], all_values: bool = True) -> List[Dict[str
                     continue
         except KeyError:
             continue
-        add("remove-variable", "undefined-variable", d, [v, list(layer)])
+        kind = "remove-variable"
+        if v in {a["arr"] for a in base.get("arrays", [])}:
+            kind = "remove-array-variable"
+        elif v in {a["idx"] for a in base.get("arrays", [])}:
+            kind = "remove-index-variable"
+        add(kind, "undefined-variable", d, [v, list(layer)])
+    # -- array accesses: rename the array / the index variable at the place of use; out-of-range index (info)
+    for a in base.get("arrays", []):
+        ci = ids.get(a["comp"])
+        if ci is None:
+            continue
+
+        def site(d):
+            n = d["components"][ci]
+            for k in a["path"][:-1]:
+                n = n[k]
+            return n, a["path"][-1]
+
+        try:
+            text = site(doc)[0][site(doc)[1]]
+        except (KeyError, TypeError):
+            continue
+        if not isinstance(text, str):
+            continue
+        d = copy.deepcopy(doc)
+        n, k = site(d)
+        n[k] = text.replace("%(" + a["arr"] + ")s[", "%(no_such_array)s[")
+        if n[k] != text:
+            add("rename-array-at-use", "undefined-variable", d, [a["comp"]] + a["path"], variable=a["arr"])
+        if a["idx"]:
+            d = copy.deepcopy(doc)
+            n, k = site(d)
+            n[k] = text.replace("[%(" + a["idx"] + ")s]", "[%(no_such_index)s]")
+            if n[k] != text:
+                add("rename-index-at-use", "undefined-variable", d, [a["comp"]] + a["path"], variable=a["idx"])
+        if not a.get("replica"):
+            d = copy.deepcopy(doc)
+            n, k = site(d)
+            n[k] = re.sub(r"(%\(" + re.escape(a["arr"]) + r"\)s)\[[^\]]*\]", r"\1[%d]" % (a["n"] + 5), text, count=1)
+            if n[k] != text:
+                add("index-out-of-range", "info", d, [a["comp"]] + a["path"], info_only=True)
     return out
